@@ -10,14 +10,23 @@
            character-data), or (bytes) when they are not one such element.  How the
            element is spelled (quotes, attribute order, xmlns placement) is not compared;
            the character data (the payload) is, byte for byte.
+     (2 kind user secret ((ns local ((ns local text) ...)) ...) wmode reply)   the same, with ALL the
+        children of the <stream:features/> element the server sent (each with its own element
+        children), as an independent XML reader sees them: which of them advertise a mechanism is
+        the model's business ([advertised_in]).
+        reply = (rkind reason) as above, or (rkind reason ns local) when the server's answer starts
+        with a complete, well-formed element of that expanded name: then the model itself decides
+        what the reply is ([reply_of_name], through Model/Parser.v's classification) and rkind is
+        not looked at.
      (1 data text)   base64.StdEncoding: -> (EncodeToString(data) (DecodeString(text)) or ()) *)
 From Coq Require Import List ZArith NArith Bool.
-From XV Require Import Lib.Sx Model.Base64 Model.Sasl.
+From XV Require Import Lib.Sx Model.Base64 Model.Sasl Model.SaslReply.
 Import ListNotations.
 Open Scope Z_scope.
 
 Inductive c14_input :=
 | IAuth (k : cred_kind) (user secret : str) (children : list fchild) (w : wres) (r : reply)
+| IAuthNodes (k : cred_kind) (user secret : str) (nodes : list fnode) (w : wres) (r : reply)
 | ICodec (data text : str).
 
 Definition dec_kind (z : Z) : option cred_kind :=
@@ -29,14 +38,24 @@ Definition dec_reply (x : sx) : option reply :=
   | SL [SZ z; SS reason] =>
       if z =? 0 then Some RSuccess else if z =? 1 then Some (RFailure reason)
       else if z =? 2 then Some ROther else if z =? 3 then Some RReadErr else None
+  | SL [SZ _; SS reason; SS ns; SS local] => Some (reply_of_name (ns, local) reason)
   | _ => None
   end.
 
 Definition dec_child (x : sx) : option fchild :=
   match x with SL [SS ns; SS local; SS text] => Some (ns, local, text) | _ => None end.
 
+Definition dec_node (x : sx) : option fnode :=
+  match x with
+  | SL [SS ns; SS local; ch] => do ch' <- as_list dec_child ch; Some (ns, local, ch')
+  | _ => None
+  end.
+
 Definition dec_input (x : sx) : option c14_input :=
   match x with
+  | SL [SZ 2; SZ k; SS user; SS secret; nodes; SZ w; r] =>
+      do k' <- dec_kind k; do ns <- as_list dec_node nodes; do w' <- dec_wres w;
+      do r' <- dec_reply r; Some (IAuthNodes k' user secret ns w' r')
   | SL [SZ 0; SZ k; SS user; SS secret; server; SZ w; r] =>
       do k' <- dec_kind k; do srv <- as_list dec_child server; do w' <- dec_wres w;
       do r' <- dec_reply r; Some (IAuth k' user secret srv w' r')
@@ -62,6 +81,9 @@ Definition run_typed (i : c14_input) : sx :=
   match i with
   | IAuth k user secret children w r =>
       let '(written, res) := auth_sasl_features k children user secret w r in
+      SL [Snat (length written); result_sx res; SL (map elem_sx written)]
+  | IAuthNodes k user secret nodes w r =>
+      let '(written, res) := auth_sasl_nodes k nodes user secret w r in
       SL [Snat (length written); result_sx res; SL (map elem_sx written)]
   | ICodec data text => SL [SS (b64_encode data); SO SS (b64_decode text)]
   end.
